@@ -52,7 +52,7 @@ CHECKS = {
         note="Trusted: M-stream, M-conn. Compliant client.",
         technique=TECH + ": deterministic executor + simulated transport, handler-visible reads vs. reference model"),
     "C10": dict(engine="D2+D5", cat="exploration", ref="DESIGN.md 4/C10",
-        text="1..3 writers on separately woken sub-futures plus a reader sub-future, seeded poll order, write sizes incl. 0/65535/65536+, flushes, a transport cutting every vectored write anywhere (inside the header, at the seam, inside padding) or returning Pending: the transport log must decode into complete records which, in completion order, equal the successful writes (type, id, payload, padding rule), with management replies as whole records. Writes are sometimes re-polled with a longer buffer than the one that set the record up, and a third of the runs inject one transient write error after which the writers retry (documented: the lock is kept and the record continued). Extra: writers on different OS threads (strict poll-when-woken loops) plus a reader thread that drives the request's own reply flushing, over a transport that accepts 3 bytes per call, under Miri's seeded scheduler, 64 / 4096 schedules, log decoded the same way.",
+        text="1..3 writers on separately woken sub-futures plus a reader sub-future, seeded poll order, write sizes incl. 0/65535/65536+, flushes, a transport cutting every vectored write anywhere (inside the header, at the seam, inside padding) or returning Pending: the transport log must decode into complete records which, in completion order, equal the successful writes (type, id, payload, padding rule), with management replies as whole records. Writes are sometimes re-polled with a longer buffer than the one that set the record up, and a third of the runs inject one transient write error after which the writers retry (documented: the lock is kept and the record continued). Extra: writers on different OS threads (strict poll-when-woken loops) plus a reader thread that drives the request's own reply flushing, over a transport that accepts 3 bytes per call and yields while the caller holds the output lock, with wake callbacks that wait (bounded) for the woken thread's next poll, under Miri's seeded scheduler, 24 / 2048 schedules, log decoded the same way.",
         note="Trusted: wire decoder; completion order equals lock-release order in a single-threaded executor.",
         technique=TECH + ": deterministic executor with per-sub-future wakers + write-cutting transport, log decoded and compared"),
     "C11": dict(engine="D1+D2", cat="exploration", ref="DESIGN.md 4/C11",
